@@ -26,6 +26,47 @@ def is_subsequence(a, b):
     return all(any(x == y for y in it) for x in a)
 
 
+# ---- sessions (operators applied in sequence to a pool of tracks)
+NAMES = ["f", "g", "h"]          # the feature names of the sessions
+
+
+def s_tag(k, i):
+    """tag of observation i of the k-th initial track of a session"""
+    return 100 * k + i
+
+
+def s_val(tag, nm, gen=0):
+    """the value observation `tag` holds for feature `nm` (gen = how many features its track had created before)"""
+    return tag * 100 + NAMES.index(nm) * 10 + gen
+
+
+def s_layout(hist):
+    """names (in column order) and generation of each after a creation / removal history"""
+    names, gen, n = [], {}, 0
+    for a, nm in hist:
+        if a == "c":
+            if nm not in names:
+                names.append(nm)
+                gen[nm] = n
+            n += 1
+        elif nm in names:
+            names.remove(nm)
+    return names, gen
+
+
+NEW_OPS = ("extract", "span", "spantrack", "add", "step", "pattern", "gt", "lt", "slice")   # return a new track
+INPLACE_OPS = ("sort", "insert", "insertat", "addobs", "remove", "removeobs", "removefirst", "removelast", "pop")
+READ_OPS = ("get", "read", "column")
+
+
+def reads_from_raw(pts, names, cols):
+    """what every observation reads under every listed name, from the raw feature lists and the column indices"""
+    out = {}
+    for nm, c in zip(names, cols):
+        out[nm] = [r[2 + c] if 2 + c < len(r) else "I" for r in pts]
+    return out
+
+
 class P(Prop):
     id = "C04"
     design_ref = "DESIGN.md section 5, C04 and appendix A.5"
@@ -75,7 +116,8 @@ class P(Prop):
         from tracklib.core.obs import Obs
         from tracklib.core import ENUCoords
         from tracklib.core.track import Track
-        self.ObsTime, self.Obs, self.ENU, self.Track = ObsTime, Obs, ENUCoords, Track
+        from tracklib.util.exceptions import AnalyticalFeatureError
+        self.ObsTime, self.Obs, self.ENU, self.Track, self.AFError = ObsTime, Obs, ENUCoords, Track, AnalyticalFeatureError
         self._fields = {}
 
     def TS(self, v):
@@ -92,10 +134,30 @@ class P(Prop):
         return o
 
     def mk(self, times, names, tag0=0):
-        tr = self.Track([self.mk_obs(tag0 + i, v, names) for i, v in enumerate(times)])
-        # the name table is the private dict name -> column (createAnalyticalFeature refuses an empty track)
-        tr._Track__analyticalFeaturesDico = {nm: k for k, nm in enumerate(names)}
+        if not times:
+            # createAnalyticalFeature refuses an empty track: an empty track WITH a table is what `track > n` leaves;
+            # here the private dict name -> column is written directly
+            tr = self.Track([])
+            tr._Track__analyticalFeaturesDico = {nm: k for k, nm in enumerate(names)}
+            return tr
+        tr = self.Track([self.mk_obs(tag0 + i, v, []) for i, v in enumerate(times)])
+        for k, nm in enumerate(names):       # the public way: one column per creation, in this order
+            tr.createAnalyticalFeature(nm, [10 * (tag0 + i) + k for i in range(len(times))])
         return tr
+
+    def read(self, tr, nm, i, form="get"):
+        """a read by NAME through the public interface: the value, "K" (unknown name), "I" (IndexError) or another error kind"""
+        try:
+            v = tr.getObsAnalyticalFeature(nm, i) if form == "get" else (tr[nm, i] if form == "ni" else tr[i, nm])
+        except self.AFError:
+            return "K"
+        except IndexError:
+            return "I"
+        except BaseException as e:
+            if isinstance(e, KeyboardInterrupt):
+                raise
+            return err_kind(e)
+        return v
 
     def dump(self, tr):
         rows = []
@@ -106,7 +168,10 @@ class P(Prop):
             d = ms - BASE * 1000
             t = d // (STEP * 1000) if d % (STEP * 1000) == 0 else "bad-time:%d" % ms
             rows.append([tag, t] + list(o.features))
-        return {"pts": rows, "names": list(tr.getListAnalyticalFeatures())}
+        names = list(tr.getListAnalyticalFeatures())
+        dico = tr._Track__analyticalFeaturesDico
+        return {"pts": rows, "names": names, "cols": [dico[nm] for nm in names],
+                "reads": {nm: [self.read(tr, nm, i) for i in range(tr.size())] for nm in names}}
 
     # ---------------------------------------------------------------- generators
     def exhaustive_scopes(self, tier):
@@ -213,9 +278,233 @@ class P(Prop):
             else:
                 c["t1"], c["t2"] = rng.randrange(-1, 13), rng.randrange(-1, 13)
             out.append(c)
+        out += self.session_cases(rng, tier)
+        # the sortRadix cases are slow (the code allocates 60000 buckets per call): spread them over the engine's shards
+        rad = self.radix_cases(rng, tier)
+        gap = max(1, len(out) // (len(rad) + 1))
+        for i, c in enumerate(rad):
+            out.insert(min(len(out), (i + 1) * gap + i), c)
+        return out
+
+
+    # ---------------------------------------------------------------- session generators
+    HISTS = [[], [["c", "f"]], [["c", "f"], ["c", "g"]], [["c", "g"], ["c", "f"]],
+             [["c", "f"], ["c", "g"], ["d", "f"], ["c", "f"]],            # f removed and re-created: columns g, f
+             [["c", "f"], ["c", "g"], ["d", "g"], ["c", "g"]],            # same layout as f, g after a removal
+             [["c", "f"], ["c", "g"], ["c", "h"]], [["c", "h"], ["c", "g"], ["c", "f"]],
+             [["c", "f"], ["c", "g"], ["c", "h"], ["d", "g"]],            # f, h (h moved from column 2 to 1)
+             [["c", "f"], ["c", "g"], ["c", "h"], ["d", "f"], ["c", "f"]],  # g, h, f
+             [["c", "g"], ["c", "f"], ["c", "f"]]]                        # a second creation of an existing name changes nothing
+
+    @staticmethod
+    def sim_op(pool, op, designate):
+        """reference effect of an operator on the generator's view of the pool ({"ids", "names"}); False when the clean code raises /
+        the arguments are outside the property's scope (the session ends there)"""
+        kind, src = op[0], pool[op[1]]
+        ids, n = src["ids"], len(src["ids"])
+        if kind in NEW_OPS:
+            other = pool[op[2]]["ids"] if kind in ("add", "spantrack") else None
+            want = designate(op, ids, other)
+            if kind == "slice" and op[4] is not None and op[4] < 0:
+                want = ids[slice(op[2], op[3], op[4])]
+            if want is None:
+                return False
+            names = src["names"] if (kind != "add" or src["names"] == pool[op[2]]["names"]) else []
+            pool.append({"ids": list(want), "names": list(names)})
+            return True
+        if kind in READ_OPS:
+            if kind == "get":
+                return -n <= op[2] < n
+            if kind == "read":
+                return op[2] in src["names"] and -n <= op[3] < n
+            return op[2] in src["names"]
+        if kind == "sort":
+            src["ids"] = sorted(ids, key=lambda r: r[1])
+        elif kind == "insert":
+            new = [op[2], op[3]]
+            i = sum(1 for r in ids if r[1] <= op[3]) if nondecreasing([r[1] for r in ids]) else n
+            src["ids"] = ids[:i] + [new] + ids[i:]
+        elif kind == "insertat":
+            l = list(ids)
+            l.insert(op[2], [op[3], op[4]])
+            src["ids"] = l
+        elif kind == "addobs":
+            src["ids"] = ids + [[op[2], op[3]]]
+        else:
+            idx = list(op[2]) if kind == "remove" else [0] if kind == "removefirst" else [n - 1] if kind == "removelast" else [op[2]]
+            if any(not -n <= i < n for i in idx) or (kind == "remove" and len(set(idx)) < len(idx)):
+                return kind == "remove" and all(0 <= i < n for i in idx)
+            idx = [i % n for i in idx]
+            src["ids"] = [r for i, r in enumerate(ids) if i not in idx]
+        return True
+
+    def random_op(self, rng, pool, newtag, scope=True):
+        """a random operator on the (generator's view of the) pool; arguments inside the property's scope unless scope=False"""
+        k = rng.randrange(len(pool))
+        n = len(pool[k]["ids"])
+        kind = rng.choice(NEW_OPS + NEW_OPS + INPLACE_OPS + ("read", "get", "column"))
+        lo = 0 if scope else -2
+        if kind == "extract":
+            if n == 0 and scope:
+                return ["gt", k, 0]
+            a = rng.randrange(lo, n + (0 if scope else 2))
+            return ["extract", k, a, rng.randrange(max(a - 1, lo, 0) if scope else -1, n + (0 if scope else 2))] if n else ["extract", k, 0, -1]
+        if kind == "span":
+            return ["span", k, rng.randrange(9), rng.randrange(9)]
+        if kind in ("spantrack", "add"):
+            return [kind, k, rng.randrange(len(pool))]
+        if kind == "step":
+            return ["step", k, rng.randrange(1 if scope else -1, n + 3)]
+        if kind == "pattern":
+            return ["pattern", k, [rng.randrange(2) for _ in range(rng.randrange(1 if scope else 0, 5))]]
+        if kind in ("gt", "lt"):
+            return [kind, k, rng.randrange(lo, n + 3)]
+        if kind == "slice":
+            c = rng.choice([None, None, 1, 2, 3] + ([] if scope else [-1, -2, 0]))
+            return ["slice", k, rng.choice([None] + list(range(-n - 1, n + 2))), rng.choice([None] + list(range(-n - 1, n + 2))), c]
+        if kind == "sort":
+            return ["sort", k]
+        if kind in ("insert", "addobs"):
+            return [kind, k, newtag, rng.randrange(9)]
+        if kind == "insertat":
+            return ["insertat", k, rng.randrange(lo, n + (1 if scope else 3)), newtag, rng.randrange(9)]
+        if kind == "remove":
+            if scope:
+                return ["remove", k, rng.sample(range(n), rng.randrange(0, min(n, 3) + 1))]
+            return ["remove", k, [rng.randrange(-1, n + 1) for _ in range(rng.randrange(0, 4))]]
+        if kind in ("removeobs", "pop", "get"):
+            if n == 0 and scope:
+                return ["addobs", k, newtag, rng.randrange(9)]
+            return [kind, k, rng.randrange(0 if scope else -n - 1, n + (0 if scope else 1))]
+        if kind in ("removefirst", "removelast"):
+            if n == 0 and scope:
+                return ["addobs", k, newtag, rng.randrange(9)]
+            return [kind, k]
+        names = pool[k]["names"]
+        if kind == "read":
+            if not names or n == 0:
+                return ["sort", k]
+            return ["read", k, rng.choice(names), rng.randrange(0 if scope else -n, n), rng.choice(["get", "ni", "in"])]
+        if not names:
+            return ["sort", k]
+        return ["column", k, rng.choice(names)]
+
+    def session_cases(self, rng, tier):
+        out = []
+        S = lambda tracks, ops: out.append({"kind": "session", "tracks": tracks, "ops": ops})
+        FG = [["c", "f"], ["c", "g"]]
+        # ---- (a) the entry points of the statement that the single-operator streams do not reach, one operation, every argument
+        for n in range(0, 5):
+            for times in ([1, 3, 5, 7][:n], [3, 1, 3, 1][:n]):
+                T = [{"times": times, "hist": FG if n else []}]
+                rg = [None] + list(range(-n - 1, n + 2))
+                if times == [1, 3, 5, 7][:n]:
+                    for a in rg:
+                        for b in rg:
+                            for c in (None, 1, 2, 3, -1, -2, 0):
+                                S(T, [["slice", 0, a, b, c]])
+                for i in range(-n - 2, n + 3):
+                    S(T, [["get", 0, i]])
+                    S(T, [["removeobs", 0, i]])
+                    S(T, [["pop", 0, i]])
+                    for ts in (0, 4, 8):
+                        S(T, [["insertat", 0, i, 900, ts]])
+                    for nm in NAMES:
+                        for form in ("get", "ni", "in"):
+                            S(T, [["read", 0, nm, i, form]])
+                for nm in NAMES:
+                    S(T, [["column", 0, nm]])
+                S(T, [["removefirst", 0]])
+                S(T, [["removelast", 0]])
+                S(T, [["addobs", 0, 900, 0]])
+                S(T, [["addobs", 0, 900, 8]])
+                for m in range(0, 3):
+                    for tm in itertools.product(V4, repeat=m):
+                        S(T + [{"times": list(tm), "hist": []}], [["spantrack", 0, 1]])
+        # ---- (b) every pair of feature histories x `+`, then a second operator on the sum; every history x every operator
+        for h1 in self.HISTS:
+            for h2 in self.HISTS:
+                for t1, t2 in (([1, 3], [5, 7]), ([5], [3, 3, 1])):
+                    T = [{"times": t1, "hist": h1}, {"times": t2, "hist": h2}]
+                    S(T, [["add", 0, 1]])
+                    S(T, [["add", 1, 0], ["add", 2, 2], ["sort", 3]])
+                    S(T, [["add", 0, 1], rng.choice([["gt", 2, 1], ["step", 2, 2], ["slice", 2, 1, None, None], ["extract", 2, 1, 2], ["lt", 2, 1]]), ["add", 3, 1]])
+                    # an EMPTY operand that still carries a table (what `>` / `<` / extract leave)
+                    S(T, [["gt", 0, 5], ["add", 2, 1]])
+                    S(T, [["lt", 1, 9], ["add", 0, 2]])
+                    S(T, [["gt", 0, 5], ["lt", 1, 9], ["add", 2, 3]])
+        for h in self.HISTS:
+            for times in ([5, 1, 3, 3], [1, 3, 5, 7, 7]):
+                n = len(times)
+                T = [{"times": times, "hist": h}]
+                for op in (["extract", 0, 1, 2], ["span", 0, 2, 6], ["step", 0, 2], ["pattern", 0, [1, 0, 1]], ["gt", 0, 1], ["lt", 0, 1],
+                           ["slice", 0, 1, None, 2], ["sort", 0], ["insert", 0, 900, 4], ["insertat", 0, 1, 900, 4], ["addobs", 0, 900, 4],
+                           ["remove", 0, [2, 0]], ["removeobs", 0, 1], ["removefirst", 0], ["removelast", 0], ["pop", 0, 2]):
+                    nxt = 1 if op[0] in NEW_OPS else 0
+                    S(T, [op, rng.choice([["gt", nxt, 1], ["step", nxt, 2], ["sort", nxt], ["slice", nxt, None, -1, None], ["insert", nxt, 901, rng.randrange(9)]])])
+        # ---- (c) random chains: the result of one operator is an operand of the next
+        for _ in range(4000 if tier == "quick" else 40000):
+            tracks, pool = [], []
+            for k in range(rng.randrange(1, 4)):
+                n = rng.choice([0, 1, 2, 3, 3, 4, 5, 6])
+                times = sorted(rng.choice(V4) for _ in range(n)) if rng.random() < 0.5 else [rng.choice(V4) for _ in range(n)]
+                hist = [list(x) for x in rng.choice(self.HISTS)] if n else []
+                tracks.append({"times": times, "hist": hist})
+                pool.append({"ids": [[s_tag(k, i), v] for i, v in enumerate(times)], "names": s_layout(hist)[0]})
+            ops = []
+            for j in range(rng.randrange(2, 8)):
+                op = self.random_op(rng, pool, 900 + j, scope=rng.random() < 0.93)
+                ops.append(op)
+                if not self.sim_op(pool, op, self.designate):
+                    break
+            S(tracks, ops)
+        return out
+
+    def radix_cases(self, rng, tier):
+        """sortRadix allocates 60000 + 60 + 24 + 31 + 12 + 100 buckets per call (70 ms): a few hundred cases"""
+        out = []
+        R = lambda fs: out.append({"kind": "radix", "times": [0] * len(fs), "fields": [list(f) for f in fs]})
+        mid, d = [2001, 6, 15, 12, 30, 30, 500], [1, 5, 10, 11, 29, 29, 499]
+        for j in range(7):
+            # later in field j, earlier in EVERY less significant field (and the reverse order of presentation)
+            a = list(mid)
+            b = [mid[i] + d[i] if i == j else (mid[i] - d[i] if i > j else mid[i]) for i in range(7)]
+            R([a, b]); R([b, a]); R([b, a, b, a])
+            for k in range(j + 1, 7):
+                c = [mid[i] + d[i] if i == j else (mid[i] - d[i] if i == k else mid[i]) for i in range(7)]
+                R([c, a]); R([a, c])
+        for n in range(0, 4):
+            R([mid] * n)
+        lo, hi = [mid[i] - d[i] for i in range(7)], [mid[i] + d[i] for i in range(7)]
+        for _ in range(120 if tier == "quick" else 2500):
+            n = rng.choice([1, 2, 3, 4, 5, 8, 16, 17, 40])
+            mode = rng.random()
+            fs = []
+            for _i in range(n):
+                if mode < 0.4:
+                    f = [rng.choice([lo[i], hi[i]]) for i in range(7)]
+                elif mode < 0.8:
+                    f = [rng.choice([1970, 1999, 2000, 2024, 2069]), rng.randrange(1, 13), rng.randrange(1, 29), rng.randrange(24), rng.randrange(60),
+                         rng.randrange(60), rng.choice([0, 1, 500, 999])]
+                else:
+                    f = [2024, 2, rng.choice([28, 29]), rng.choice([0, 23]), rng.choice([0, 59]), rng.choice([0, 59]), rng.choice([0, 999])]
+                fs.append(f)
+            if mode > 0.95:
+                fs[rng.randrange(n)][0] = rng.choice([2070, 2100])       # no bucket for the year: IndexError, the track is left as it was
+            if rng.random() < 0.3:
+                fs = sorted(fs)
+            elif rng.random() < 0.15:
+                fs = sorted(fs, reverse=True)
+            R(fs)
         return out
 
     def describe(self, case):
+        if case["kind"] == "session":
+            return {"kind": "session", "operations": len(case["ops"]), "first_op": case["ops"][0][0] if case["ops"] else "-",
+                    "tracks": len(case["tracks"])}
+        if case["kind"] == "radix":
+            n = len(case["fields"])
+            return {"kind": "radix", "size": n if n <= 8 else ">8"}
         t = {"kind": case["kind"]}
         n = len(case["times"])
         t["size"] = n if n <= 8 else ("2^k" if n & (n - 1) == 0 else "2^k-1" if (n + 1) & n == 0 else "2^k+1" if (n - 1) & (n - 2) == 0 else ">8")
@@ -228,6 +517,10 @@ class P(Prop):
         return t
 
     def nontrivial(self, case):
+        if case["kind"] == "session":
+            return any(len(t["times"]) >= 2 for t in case["tracks"]) and bool(case["ops"])
+        if case["kind"] == "radix":
+            return len(case["fields"]) >= 2
         return len(case["times"]) >= 2 or case["kind"] == "ilog"
 
     # ---------------------------------------------------------------- implementation
@@ -237,6 +530,10 @@ class P(Prop):
         if k == "ilog":
             # the expression of Track.__getInsertionIndex, evaluated by the same CPython / libm (trusted-contract check)
             return {"j": [(int)(math.log(N) / math.log(2)) for N in range(case["lo"], case["hi"])]}
+        if k == "session":
+            return self.impl_session(case)
+        if k == "radix":
+            return self.impl_radix(case)
         tr = self.mk(case["times"], names)
         if k == "index":
             res = []
@@ -291,11 +588,28 @@ class P(Prop):
     @staticmethod
     def untrack(p, n):
         pts = [] if p == "_" else [[int(x) for x in o.split(":")] for o in p.split(",")]
-        return {"pts": pts, "names": [] if n == "_" else n.split(",")}
+        names, cols = [], []
+        if n != "_":
+            for e in n.split(","):
+                nm, c = e.split(":")
+                names.append(nm)
+                cols.append(int(c))
+        return {"pts": pts, "names": names, "cols": cols, "reads": reads_from_raw(pts, names, cols)}
+
+    @staticmethod
+    def track_dict(rows, names):
+        """the dump of a track whose columns are its names in order (what `mk` builds)"""
+        names = list(names)
+        cols = list(range(len(names)))
+        return {"pts": rows, "names": names, "cols": cols, "reads": reads_from_raw(rows, names, cols)}
 
     def requests(self, case):
         k = case["kind"]
         names = case.get("names", [])
+        if k == "session":
+            return self.requests_session(case)
+        if k == "radix":
+            return ["C04.radix %s" % (";".join(",".join(map(str, self.radix_digits(f))) for f in case["fields"]) or "_")]
         p = self.tok_pts(obs_rows(case["times"], names))
         nm = self.tok_names(names)
         if k == "ilog":
@@ -327,7 +641,17 @@ class P(Prop):
     def decode(self, case, replies):
         k = case["kind"]
         names = case.get("names", [])
-        src = {"pts": obs_rows(case["times"], names), "names": list(names)}
+        if k == "session":
+            return self.decode_session(case, replies)
+        if k == "radix":
+            r = replies[0]
+            if r == "bad-request":
+                raise ValueError(r)
+            if r.startswith("err:"):
+                return {"err": r, "rows": [[i, list(f)] for i, f in enumerate(case["fields"])]}
+            order = [] if r == "_" else [int(x) for x in r.split(",")]
+            return {"rows": [[i, list(case["fields"][i])] for i in order]}
+        src = self.track_dict(obs_rows(case["times"], names), names)
         if k == "ilog":
             return {"j": [int(x) for x in replies[0].split(",")]}
         if k == "index":
@@ -349,7 +673,7 @@ class P(Prop):
             return {"src": self.untrack(*r.split(" "))}
         if k == "remove":
             p, ret = r.split(" ")
-            after = {"pts": self.untrack(p, "_")["pts"], "names": list(names)}
+            after = self.track_dict(self.untrack(p, "_")["pts"], names)
             if ret.startswith("err:"):
                 return {"err": ret, "src": after}
             return {"ret": int(ret), "src": after}
@@ -357,7 +681,7 @@ class P(Prop):
             return {"err": r, "src": src}
         out = {"out": self.untrack(*r.split(" ")), "src": src}
         if k == "concat":
-            out["src2"] = {"pts": obs_rows(case["times2"], case["names2"], 50), "names": list(case["names2"])}
+            out["src2"] = self.track_dict(obs_rows(case["times2"], case["names2"], 50), case["names2"])
         return out
 
     def compare(self, case, impl_out, model_out):
@@ -378,7 +702,435 @@ class P(Prop):
                 return None
         return "impl=%s model=%s" % (str(impl_out)[:300], str(model_out)[:300])
 
+
+    # ================================================================ sessions: operators applied in sequence
+    # case = {"kind": "session", "tracks": [{"times": [...], "hist": [["c", "f"], ["d", "f"], ...]}, ...], "ops": [[name, k, args...], ...]}
+    # The k-th initial track holds the observations tagged 100k, 100k+1, ...; its features are created / removed in the order
+    # of `hist` through createAnalyticalFeature / removeAnalyticalFeature (so the column layout is whatever the code makes it).
+    # An operator designates its operand(s) by position in the pool; a track it returns is appended to the pool.
+    # The session stops at the first operation that raises.
+    def new_obs(self, tr, tag, t):
+        """a new observation for `tr`: it holds s_val(tag, nm) for every name, laid out as the track lists its names"""
+        o = self.Obs(self.ENU(float(tag), 2.0 * tag + 0.5, -float(tag)), self.TS(t))
+        o.features = [s_val(tag, nm) for nm in tr.getListAnalyticalFeatures()]
+        return o
+
+    @staticmethod
+    def obs_tag(o):
+        x = o.position.getX()
+        return int(x) if x == int(x) else "bad-position:%r" % x
+
+    def build_session(self, case):
+        pool = []
+        for k, sp in enumerate(case["tracks"]):
+            n = len(sp["times"])
+            tr = self.Track([self.mk_obs(s_tag(k, i), v, []) for i, v in enumerate(sp["times"])])
+            gen = 0
+            for a, nm in sp["hist"]:
+                if a == "c":
+                    tr.createAnalyticalFeature(nm, [s_val(s_tag(k, i), nm, gen) for i in range(n)])
+                    gen += 1
+                else:
+                    tr.removeAnalyticalFeature(nm)
+            pool.append(tr)
+        return pool
+
+    def apply_op(self, pool, op):
+        kind, tr = op[0], pool[op[1]]
+        if kind == "extract":
+            pool.append(tr.extract(op[2], op[3]))
+        elif kind == "span":
+            pool.append(tr.extractSpanTime(self.TS(op[2]), self.TS(op[3])))
+        elif kind == "spantrack":
+            pool.append(tr.extractSpanTime(pool[op[2]]))
+        elif kind == "add":
+            pool.append(tr + pool[op[2]])
+        elif kind == "step":
+            pool.append(tr % op[2])
+        elif kind == "pattern":
+            pool.append(tr % [bool(b) for b in op[2]])
+        elif kind == "gt":
+            pool.append(tr > op[2])
+        elif kind == "lt":
+            pool.append(tr < op[2])
+        elif kind == "slice":
+            pool.append(tr[slice(op[2], op[3], op[4])])
+        elif kind == "sort":
+            tr.sort()
+        elif kind == "insert":
+            tr.insertObs(self.new_obs(tr, op[2], op[3]))
+        elif kind == "insertat":
+            tr.insertObs(self.new_obs(tr, op[3], op[4]), op[2])
+        elif kind == "addobs":
+            tr.addObs(self.new_obs(tr, op[2], op[3]))
+        elif kind == "remove":
+            return ["count", tr.removeObsList(list(op[2]))]
+        elif kind == "removeobs":
+            return ["count", tr.removeObs(op[2])]
+        elif kind == "removefirst":
+            return ["count", tr.removeFirstObs()]
+        elif kind == "removelast":
+            return ["count", tr.removeLastObs()]
+        elif kind == "pop":
+            return ["obs", self.obs_tag(tr.popObs(op[2]))]
+        elif kind == "get":
+            return ["obs", self.obs_tag(tr[op[2]])]
+        elif kind == "read":
+            return ["value", self.read(tr, op[2], op[3], op[4])]
+        elif kind == "column":
+            return ["values", list(tr[op[2]])]
+        else:
+            raise ValueError(kind)
+        return "done"
+
+    def impl_session(self, case):
+        pool = self.build_session(case)
+        out = {"init": [self.dump(t) for t in pool], "steps": []}
+        for op in case["ops"]:
+            try:
+                o = self.apply_op(pool, op)
+            except BaseException as e:
+                if isinstance(e, KeyboardInterrupt):
+                    raise
+                o = err_kind(e)
+            out["steps"].append({"out": o, "pool": [self.dump(t) for t in pool]})
+            if isinstance(o, str) and o.startswith("err:"):
+                break
+        return out
+
+    @staticmethod
+    def build_ops(case):
+        ops = []
+        for k, sp in enumerate(case["tracks"]):
+            n, gen = len(sp["times"]), 0
+            for a, nm in sp["hist"]:
+                if a == "c":
+                    ops.append("create/%d/%s/%s" % (k, nm, ",".join(str(s_val(s_tag(k, i), nm, gen)) for i in range(n)) or "_"))
+                    gen += 1
+                else:
+                    ops.append("delete/%d/%s" % (k, nm))
+        return ops
+
+    @staticmethod
+    def enc_op(op):
+        kind, k = op[0], op[1]
+        oi = lambda v: "N" if v is None else str(v)
+        vals = lambda tag: ",".join("%s=%d" % (nm, s_val(tag, nm)) for nm in NAMES)
+        if kind in ("extract", "span"):
+            return "%s/%d/%d/%d" % (kind, k, op[2], op[3])
+        if kind in ("spantrack", "add", "step", "gt", "lt", "removeobs", "pop", "get"):
+            return "%s/%d/%d" % (kind, k, op[2])
+        if kind == "pattern":
+            return "pattern/%d/%s" % (k, "".join(map(str, op[2])) or "_")
+        if kind == "slice":
+            return "slice/%d/%s/%s/%s" % (k, oi(op[2]), oi(op[3]), oi(op[4]))
+        if kind in ("sort", "removefirst", "removelast"):
+            return "%s/%d" % (kind, k)
+        if kind in ("insert", "addobs"):
+            return "%s/%d/%d/%d/%s" % (kind, k, op[2], op[3], vals(op[2]))
+        if kind == "insertat":
+            return "insertat/%d/%d/%d/%d/%s" % (k, op[2], op[3], op[4], vals(op[3]))
+        if kind == "remove":
+            return "remove/%d/%s" % (k, ",".join(map(str, op[2])) or "_")
+        if kind == "read":
+            return "read/%d/%s/%d" % (k, op[2], op[3])
+        if kind == "column":
+            return "column/%d/%s" % (k, op[2])
+        raise ValueError(kind)
+
+    def requests_session(self, case):
+        tracks = ";".join("T" + self.tok_pts([[s_tag(k, i), v] for i, v in enumerate(sp["times"])]) for k, sp in enumerate(case["tracks"]))
+        ops = self.build_ops(case) + [self.enc_op(op) for op in case["ops"]]
+        return ["C04.session %s %s" % (tracks or "_", ";".join(ops) or "_")]
+
+    def decode_session(self, case, replies):
+        r = replies[0]
+        if r == "bad-request":
+            raise ValueError(r)
+        nbuild = len(self.build_ops(case))
+        pool = [{"pts": [[s_tag(k, i), v] for i, v in enumerate(sp["times"])], "names": [], "cols": [], "reads": {}} for k, sp in enumerate(case["tracks"])]
+        out = {"steps": []}
+        steps = [] if r == "_" else r.split(";")
+        if len(steps) != nbuild + len(case["ops"]):
+            raise ValueError("%d steps for %d operations" % (len(steps), nbuild + len(case["ops"])))
+
+        def rd(x):
+            return int(x[1:]) if x[0] == "v" else x
+        for j, st in enumerate(steps):
+            o, k, p, tb, reads = st.split("|")
+            if k != "-":
+                d = self.untrack(p, tb)
+                d["reads"] = {}
+                if reads != "_":
+                    for part in reads.split("+"):
+                        nm, vs = part.split("=")
+                        d["reads"][nm] = [] if vs == "_" else [rd(x) for x in vs.split(",")]
+                pool = list(pool)
+                if int(k) == len(pool):
+                    pool.append(d)
+                else:
+                    pool[int(k)] = d
+            if j < nbuild:
+                if o != "done":
+                    raise ValueError("the model refuses the construction step %d: %s" % (j, o))
+                if j == nbuild - 1:
+                    out["init"] = pool
+                continue
+            if o.startswith("count=") or o.startswith("obs="):
+                o = [o.split("=")[0], int(o.split("=")[1])]
+            elif o.startswith("value="):
+                o = ["value", rd(o[6:])]
+            elif o.startswith("values="):
+                vs = [] if o[7:] == "_" else [rd(x) for x in o[7:].split(",")]
+                o = "err:index" if "I" in vs else ["values", vs]
+            out["steps"].append({"out": o, "pool": pool})
+            if isinstance(o, str) and o.startswith("err:"):
+                break
+        if nbuild == 0:
+            out["init"] = [{"pts": [[s_tag(k, i), v] for i, v in enumerate(sp["times"])], "names": [], "cols": [], "reads": {}} for k, sp in enumerate(case["tracks"])]
+        return {"init": out["init"], "steps": out["steps"]}
+
+    # ---- what an operator designates (plain Python on lists: independent of tracklib)
+    @staticmethod
+    def designate(op, ids, other=None):
+        """the observations (as [tag, time]) that the operator's arguments designate on a track holding `ids`, or None when the
+        arguments designate nothing the property speaks of (negative counts, an index of no observation, zero step, ...)"""
+        kind, n = op[0], len(ids)
+        if kind == "extract":
+            a, b = op[2], op[3]
+            return (ids[a:b + 1] if a <= b else []) if (0 <= a and b < n) else None
+        if kind == "span":
+            lo, hi = min(op[2], op[3]), max(op[2], op[3])
+            return [r for r in ids if lo <= r[1] <= hi]
+        if kind == "spantrack":
+            if not other:
+                return None
+            lo, hi = min(other[0][1], other[-1][1]), max(other[0][1], other[-1][1])
+            return [r for r in ids if lo <= r[1] <= hi]
+        if kind == "add":
+            return ids + other
+        if kind == "step":
+            return [r for i, r in enumerate(ids) if i % op[2] == 0] if op[2] >= 1 else None
+        if kind == "pattern":
+            pat = op[2]
+            return [r for i, r in enumerate(ids) if pat[i % len(pat)]] if pat else ([] if n == 0 else None)
+        if kind == "gt":
+            return ids[op[2]:] if op[2] >= 0 else None
+        if kind == "lt":
+            return ids[:max(0, n - op[2])] if op[2] >= 0 else None
+        if kind == "slice":
+            return ids[slice(op[2], op[3], op[4])] if (op[4] is None or op[4] >= 1) else None
+        raise ValueError(kind)
+
+    def spec_session(self, case, out):
+        if "init" not in out:
+            return "the session raised %s %s" % (out.get("err"), out.get("detail", ""))
+        own = {}
+        for k, sp in enumerate(case["tracks"]):
+            names, gen = s_layout(sp["hist"])
+            d = out["init"][k]
+            want = [[s_tag(k, i), v] for i, v in enumerate(sp["times"])]
+            if [r[:2] for r in d["pts"]] != want or d["names"] != names:
+                return "initial track %d (history %s) is %s" % (k, sp["hist"], d)
+            for i in range(len(want)):
+                own[s_tag(k, i)] = {nm: s_val(s_tag(k, i), nm, gen[nm]) for nm in names}
+        for op in case["ops"]:
+            tag = {"insert": 2, "addobs": 2, "insertat": 3}.get(op[0])
+            if tag is not None:
+                own[op[tag]] = {nm: s_val(op[tag], nm) for nm in NAMES}
+
+        def ownf(tag, nm):
+            return own.get(tag, {}).get(nm)
+        for k, d in enumerate(out["init"]):
+            m = self.reads_own(d, ownf, "initial track %d" % k)
+            if m:
+                return m
+        pool = out["init"]
+        for j, st in enumerate(out["steps"]):
+            m = self.spec_step(case["ops"][j], pool, st, ownf)
+            if m:
+                return "operation %d %s: %s" % (j, case["ops"][j], m)
+            pool = st["pool"]
+        return None
+
+    def spec_step(self, op, pre, st, ownf):
+        kind, k = op[0], op[1]
+        o, post = st["out"], st["pool"]
+        src = pre[k]
+        ids = [r[:2] for r in src["pts"]]
+        n = len(ids)
+        err = isinstance(o, str) and o.startswith("err:")
+
+        def unchanged(skip=None):
+            for i, d in enumerate(pre):
+                if i != skip and (i >= len(post) or post[i] != d):
+                    return "track %d of the pool was modified: %s became %s" % (i, d, post[i] if i < len(post) else None)
+            return None
+        if kind in NEW_OPS:
+            m = unchanged()
+            if m:
+                return m
+            other = [r[:2] for r in pre[op[2]]["pts"]] if kind in ("add", "spantrack") else None
+            want = self.designate(op, ids, other)
+            if want is None:
+                return None
+            if err:
+                return "raised %s on a track of %d observations" % (o, n)
+            if len(post) != len(pre) + 1:
+                return "no track was returned"
+            res = post[-1]
+            if [r[:2] for r in res["pts"]] != want:
+                return "on %s returns %s, designated: %s" % (ids, [r[:2] for r in res["pts"]], want)
+            m = self.reads_own(res, ownf, "the result")
+            if m:
+                return m
+            if kind == "add" and src["names"] != pre[op[2]]["names"]:
+                return None        # different feature tables: which table the sum carries is not specified
+            if res["names"] != src["names"]:
+                return "returns the feature-name table %s instead of %s" % (res["names"], src["names"])
+            return None
+        if len(post) != len(pre):
+            return "the pool has %d tracks instead of %d" % (len(post), len(pre))
+        if kind in READ_OPS:
+            m = unchanged()
+            if m:
+                return m
+            if kind == "get":
+                i = op[2]
+                if -n <= i < n:
+                    return None if o == ["obs", ids[i][0]] else "track[%d] on %s gives %s" % (i, ids, o)
+                return None
+            if kind == "read":
+                nm, i = op[2], op[3]
+                if nm in src["names"] and -n <= i < n:
+                    w = ownf(ids[i][0], nm)
+                    return None if (o == ["value", w] and not isinstance(o[1], bool)) else "observation %s reads %s = %s, its own value is %s" % (ids[i][0], nm, o, w)
+                return None
+            if kind == "column":
+                nm = op[2]
+                if nm in src["names"]:
+                    w = [ownf(r[0], nm) for r in ids]
+                    return None if o == ["values", w] else "track[%r] gives %s, the observations hold %s" % (nm, o, w)
+                return None
+        # ---- in-place operations
+        m = unchanged(skip=k)
+        if m:
+            return m
+        res = post[k]
+        got = [r[:2] for r in res["pts"]]
+        if res["names"] != src["names"]:
+            return "the feature-name table changed from %s to %s" % (src["names"], res["names"])
+        m = self.reads_own(res, ownf, "the track after the operation")
+        if m:
+            return m
+        if kind == "sort":
+            if err:
+                return "sort raised %s" % o
+            if sorted(got) != sorted(ids):
+                return "sort of %s gives %s: not the same observations" % (ids, got)
+            if not nondecreasing([r[1] for r in got]):
+                return "sort of %s gives the times %s" % (ids, [r[1] for r in got])
+            return None
+        if kind in ("insert", "insertat", "addobs"):
+            new = [op[3], op[4]] if kind == "insertat" else [op[2], op[3]]
+            if err:
+                return "raised %s" % o
+            if got.count(new) != 1 or [r for r in got if r != new] != ids or len(got) != n + 1:
+                return "on %s gives %s: not the old observations in order plus the new one" % (ids, got)
+            if kind == "insert" and nondecreasing([r[1] for r in ids]) and not nondecreasing([r[1] for r in got]):
+                return "insertion of t=%d into the sorted times %s gives %s" % (new[1], [r[1] for r in ids], [r[1] for r in got])
+            if kind == "addobs" and got != ids + [new]:
+                return "addObs gives %s" % got
+            if kind == "insertat" and 0 <= op[2] <= n and got != ids[:op[2]] + [new] + ids[op[2]:]:
+                return "insertObs(obs, %d) on %s gives %s" % (op[2], ids, got)
+            return None
+        idx = list(op[2]) if kind == "remove" else [0] if kind == "removefirst" else [n - 1] if kind == "removelast" else [op[2]]
+        if any(not 0 <= i < n for i in idx):
+            # no such observation: outside the property's scope, only require that nothing is corrupted
+            return None if is_subsequence(got, ids) else "on %s leaves %s" % (ids, got)
+        if err:
+            return "raised %s on %d observations" % (o, n)
+        want = [r for i, r in enumerate(ids) if i not in idx]
+        if len(set(idx)) < len(idx):
+            if (got == ids and o == ["count", 0]) or got == want:
+                return None
+            return "removal of %s on %s leaves %s" % (idx, ids, got)
+        if got != want:
+            return "removal of %s on %s leaves %s, the other observations are %s" % (idx, ids, got, want)
+        if kind == "pop":
+            return None if o == ["obs", ids[idx[0]][0]] else "popObs(%d) on %s returned %s" % (idx[0], ids, o)
+        if o != ["count", len(idx)]:
+            return "removal of %s returned %s" % (idx, o)
+        return None
+
+    # ================================================================ sortRadix
+    @staticmethod
+    def radix_digits(f):
+        y, mo, d, h, mi, sec, ms = f
+        return [sec * 1000 + ms, mi, h, d - 1, mo - 1, y - 1970]
+
+    def impl_radix(self, case):
+        obs = [self.Obs(self.ENU(float(i), 2.0 * i + 0.5, -float(i)), self.ObsTime(*f)) for i, f in enumerate(case["fields"])]
+        tr = self.Track(obs)
+        out = {}
+        try:
+            tr.sortRadix()
+        except BaseException as e:
+            if isinstance(e, KeyboardInterrupt):
+                raise
+            out["err"] = err_kind(e)
+        rows = []
+        for o in tr.getObsList():
+            t = o.timestamp
+            rows.append([self.obs_tag(o), [t.year, t.month, t.day, t.hour, t.min, t.sec, t.ms]])
+        out["rows"] = rows
+        return out
+
+    def spec_radix(self, case, out):
+        fields = [list(f) for f in case["fields"]]
+        rows = out.get("rows")
+        if rows is None:
+            return "sortRadix raised %s" % out.get("err")
+        if any(not (isinstance(r[0], int) and 0 <= r[0] < len(fields) and r[1] == fields[r[0]]) for r in rows):
+            return "sortRadix altered an observation: %s" % rows
+        if any(not 1970 <= f[0] <= 2069 for f in fields):
+            # sortRadix has one bucket per year 1970..2069: other years are outside what it offers (reported as a limit)
+            return None if sorted(r[0] for r in rows) == list(range(len(fields))) else "sortRadix lost observations: %s" % rows
+        if "err" in out:
+            return "sortRadix raised %s on %s" % (out["err"], fields)
+        if sorted(r[0] for r in rows) != list(range(len(fields))):
+            return "sortRadix of %s gives %s: not the same observations" % (fields, rows)
+        if not nondecreasing([r[1] for r in rows]):
+            return "sortRadix of %s gives the times %s" % (fields, [r[1] for r in rows])
+        return None
+
     # ---------------------------------------------------------------- oracle (transfer)
+    @staticmethod
+    def own_single(case):
+        """single-operator cases: the value observation `tag` holds for feature `nm` (None = it has no such feature)"""
+        names, names2 = list(case.get("names", [])), list(case.get("names2", []))
+        concat = case["kind"] == "concat"
+
+        def own(tag, nm):
+            ns = names2 if (concat and 50 <= tag < NEW_TAG) else names
+            return 10 * tag + ns.index(nm) if nm in ns else None
+        return own
+
+    @staticmethod
+    def reads_own(d, own, what):
+        """every observation of the dumped track reads, under every name the track lists, the value it holds for that name"""
+        for nm in d["names"]:
+            col = d.get("reads", {}).get(nm)
+            if col is None or len(col) != len(d["pts"]):
+                return "%s lists feature %r but its reads are %r" % (what, nm, col)
+            for r, v in zip(d["pts"], col):
+                w = own(r[0], nm)
+                if w is None:
+                    return "%s lists feature %r, which observation %s does not have (read gives %r)" % (what, nm, r[0], v)
+                if v != w or isinstance(v, bool):
+                    return "%s: observation %s reads %s = %r, its own value is %r" % (what, r[0], nm, v, w)
+        return None
+
     def spec(self, case, out):
         k = case["kind"]
         if k == "ilog":
@@ -388,6 +1140,10 @@ class P(Prop):
                 if N >= 2 and not (j >= 1 and 2 ** j <= N):
                     return "(int)(log(%d)/log(2)) = %d: the first step 2^(j-1) does not satisfy 2*2^(j-1) <= N" % (N, j)
             return None
+        if k == "session":
+            return self.spec_session(case, out)
+        if k == "radix":
+            return self.spec_radix(case, out)
         names = list(case.get("names", []))
         rows = obs_rows(case["times"], names)
         n = len(rows)
@@ -399,6 +1155,10 @@ class P(Prop):
             return "feature-name table of the track changed from %s to %s" % (names, src["names"])
         if not inplace and src["pts"] != rows:
             return "the source track was modified: %s became %s" % (rows, src["pts"])
+        own = self.own_single(case)
+        m = self.reads_own(src, own, "the track after the operation" if inplace else "the source track")
+        if m:
+            return m
         if k == "index":
             for ts, r in zip(case["tss"], out["ids"]):
                 if not isinstance(r, int):
@@ -465,7 +1225,7 @@ class P(Prop):
             want = rows + rows2
             what = "+"
             s2 = out.get("src2")
-            if s2 is not None and (s2["pts"] != rows2 or s2["names"] != list(case["names2"])):
+            if s2 is not None and (s2["pts"] != rows2 or s2["names"] != list(case["names2"]) or self.reads_own(s2, own, "t2")):
                 return "+ modified its right operand: %s" % s2
         elif k == "step":
             if case["n"] >= 1:
@@ -493,6 +1253,10 @@ class P(Prop):
         got = out["out"]
         if got["pts"] != want:
             return "%s on %s returns %s, designated: %s" % (what, rows, got["pts"], want)
+        # whatever feature names the result lists, every observation reads ITS OWN value under each of them
+        m = self.reads_own(got, own, "the result of " + what)
+        if m:
+            return m
         if k == "concat" and names != list(case["names2"]):
             return None               # different feature tables: which table the sum carries is not specified
         if got["names"] != names:
@@ -500,7 +1264,46 @@ class P(Prop):
         return None
 
     # ---------------------------------------------------------------- shrinking / search
+    def shrink_session(self, case):
+        ops, tracks = case["ops"], case["tracks"]
+        for j in range(1, len(ops)):                      # a prefix
+            yield dict(case, ops=ops[:j])
+        for j in range(len(ops) - 1):                     # drop an operation that creates no track
+            if ops[j][0] not in NEW_OPS:
+                yield dict(case, ops=ops[:j] + ops[j + 1:])
+        used = {0} | {op[1] for op in ops} | {op[2] for op in ops if op[0] in ("add", "spantrack")}
+        for k in range(len(tracks) - 1, -1, -1):          # drop an initial track nobody designates
+            if k not in used:
+                sh = lambda i: i - 1 if i > k else i
+                new_ops = [[op[0], sh(op[1])] + ([sh(op[2])] if op[0] in ("add", "spantrack") else list(op[2:3])) + list(op[3:]) for op in ops]
+                yield dict(case, tracks=tracks[:k] + tracks[k + 1:], ops=new_ops)
+        for k, sp in enumerate(tracks):
+            if sp["hist"]:
+                for j in range(len(sp["hist"])):
+                    h = sp["hist"][:j] + sp["hist"][j + 1:]
+                    names = []
+                    ok = True
+                    for a, nm in h:                         # a removal must still find its feature
+                        if a == "d" and nm not in names:
+                            ok = False
+                        elif a == "d":
+                            names.remove(nm)
+                        elif nm not in names:
+                            names.append(nm)
+                    if ok:
+                        yield dict(case, tracks=tracks[:k] + [dict(sp, hist=h)] + tracks[k + 1:])
+            if len(sp["times"]) > 1:
+                yield dict(case, tracks=tracks[:k] + [dict(sp, times=sp["times"][:-1])] + tracks[k + 1:])
+
     def shrink(self, case):
+        if case["kind"] == "session":
+            yield from self.shrink_session(case)
+            return
+        if case["kind"] == "radix":
+            fs = case["fields"]
+            for i in range(len(fs)):
+                yield dict(case, fields=fs[:i] + fs[i + 1:], times=[0] * (len(fs) - 1))
+            return
         if case["kind"] == "ilog":
             if case["hi"] - case["lo"] > 1:
                 mid = (case["lo"] + case["hi"]) // 2
@@ -549,7 +1352,13 @@ class P(Prop):
 
     def mutate(self, case, rng):
         k = case["kind"]
+        if k in ("session", "radix"):
+            return
         times = case["times"]
+        if k == "concat":
+            for t1 in ([], [1, 3]):
+                for t2 in ([5], [3, 7]):
+                    yield dict(case, times=t1, times2=t2)
         if k in ("insert", "index"):
             st = sorted(times)
             tss = sorted(set([t + d for t in st for d in (-1, 0, 1)] + [0]))
